@@ -45,13 +45,14 @@ func VerifC09Controller() {
 	}
 	now := c11Now
 	left := false
+	var second *operator.Operator
 	check := func(tag string) {
 		if oc.GetOperator(region.GetID()) != op {
 			v.Reach("left")
 			v.Assert(tag+"-operator-that-left-the-running-set-is-in-an-end-status", op.IsEnd())
 			if !left {
 				// remembered when it leaves (the records are a TTL cache: not for ever)
-				rec := oc.GetOperatorStatus(region.GetID())
+				rec := oc.opRecords.Get(region.GetID()) // (GetOperatorStatus answers with the running operator first)
 				v.Assert(tag+"-operator-that-left-the-running-set-is-remembered", rec != nil && rec.Op == op)
 			}
 			left = true
@@ -62,7 +63,7 @@ func VerifC09Controller() {
 	check("added")
 	n := v.Param("events", 3)
 	for i := 0; i < n; i++ {
-		switch v.Choice("event", 6) {
+		switch v.Choice("event", 7) {
 		case 0: // heartbeat: nothing changed
 			oc.Dispatch(region, DispatchFromHeartBeat)
 		case 1: // heartbeat: the step has been carried out
@@ -89,7 +90,48 @@ func VerifC09Controller() {
 			oc.GetOpInfluence(w.tc)
 		case 5:
 			oc.RemoveOperator(op)
+		case 6: // a second operator for the same region, with the same or a higher priority
+			cur := w.tc.GetRegion(region.GetID())
+			if cur == nil || cur.GetLeader() == nil || second != nil {
+				break
+			}
+			to := uint64(0)
+			for _, p := range cur.GetPeers() {
+				if p.GetStoreId() != cur.GetLeader().GetStoreId() {
+					to = p.GetStoreId()
+				}
+			}
+			op2, err2 := operator.CreateTransferLeaderOperator("verif-second", w.tc, cur, cur.GetLeader().GetStoreId(), to, operator.OpLeader)
+			if err2 != nil || op2 == nil {
+				break
+			}
+			if v.Choice("secondPriority", 2) == 1 {
+				op2.SetPriorityLevel(core.HighPriority)
+			}
+			wasRunning := oc.GetOperator(region.GetID()) == op
+			higher := op2.GetPriorityLevel() > op.GetPriorityLevel()
+			ok := oc.AddOperator(op2)
+			second = op2
+			v.Reach("second")
+			if wasRunning && !higher {
+				v.Assert("second-operator-of-no-higher-priority-is-refused", !ok && oc.GetOperator(region.GetID()) == op)
+				v.Assert("refused-operator-ends-cancelled", op2.IsEnd())
+			}
+			if wasRunning && ok {
+				v.Assert("replaced-operator-is-in-an-end-status", op.IsEnd())
+			}
+			if ok {
+				v.Assert("accepted-operator-is-the-running-one", oc.GetOperator(region.GetID()) == op2)
+			}
 		}
+		// one operator per region
+		n := 0
+		for _, o := range oc.GetOperators() {
+			if o.RegionID() == region.GetID() {
+				n++
+			}
+		}
+		v.Assert("at-most-one-running-operator-per-region", n <= 1)
 		check("event")
 	}
 	v.Reach("end")
